@@ -190,6 +190,7 @@ pub fn two_party(case: &str, seed: u64, k: &Knobs, content: Vec<u8>) -> Scenario
         probe: false,
         final_reports: false,
         plant: vec![],
+        dropper: None,
     }
 }
 
